@@ -112,6 +112,8 @@ func checkC15(c *Check) {
 	ruleSyntheticEOF(c, p, "R15.4")
 	ruleOrderingGoroutineLatch(c, p, "R15.5")
 	ruleBlocksCloseLatch(c, p, "R15.6")
+	ruleStickyError(c, p, "R15.9")
+	c.RuleDoc["R15.9"] = "= R17.16: once a sink or source error has put the object in errorState every later call reports it"
 	ruleStreamsThroughInterface(c, p, "R15.8")
 	c.RuleDoc["R15.8"] = "source and sink are used only through Read / Write / Close (= R07.10): every I/O failure passes the error rules"
 	ruleLockset(c, p, "R15.7")
